@@ -73,14 +73,14 @@ def run(ctx):
     acts = ["PushCount", "PushLocal", "PushOverflow", "PushGlobal", "PopCheckLen", "PopLockHead", "PopHead",
             "PopLockGlobal", "PopRetry", "PopInstall", "PopDec", "PopUnlock", "PopReturn", "FlushStart",
             "FlushTake", "FlushPut", "FlushReturn"]
-    cfgs = ["MC_BlockPool_small.cfg"] if quick else ["MC_BlockPool.cfg", "MC_BlockPool_2pop.cfg", "MC_BlockPool_deep.cfg"]
+    cfgs = ["MC_BlockPool_small.cfg"] if quick else ["MC_BlockPool.cfg", "MC_BlockPool_2pop.cfg", "MC_BlockPool_3w.cfg", "MC_BlockPool_deep.cfg"]
     for c in cfgs:
         ctx.tlc_mc("BlockPool.tla", c, spec_dir=sd, require_actions=acts, workers=4, env=rc.JVM_ENV, timeout=3000)
     for m in ("overflow_drops_old", "slow_path_no_dec", "flush_skips_last"):
         ctx.tlc_mc("BlockPool.tla", "MC_BlockPool_mutant_%s.cfg" % m, spec_dir=sd, expect_violation=True,
                    workers=2, env=rc.JVM_ENV)
 
-    maxlen, nrandom, nbatch = (5, 30, 40) if quick else (7, 400, 600)
+    maxlen, nrandom, nbatch = (5, 30, 40) if quick else (7, 1500, 2500)
     jobs, files, rows = [], [], 0
     for bname, bexe in builds:
         out = os.path.join(ctx.work, "pool_%s.ndjson" % bname)
@@ -90,7 +90,7 @@ def run(ctx):
             continue
         files.append(out)
         rows += sum(1 for _ in open(out))
-        parts = rc.split_rows(out, 3 if quick else 8, ctx.work, "pool_%s_p" % bname)
+        parts = rc.split_rows(out, 3 if quick else 8, ctx.work, "pool_%s_p" % bname, interleave=True)
         for p in parts:
             jobs.append(dict(module=TRACE_SPEC[0], cfg=TRACE_SPEC[1], trace=p, spec_dir=sd,
                              name="trace_" + os.path.splitext(os.path.basename(p))[0],
